@@ -39,6 +39,9 @@ type C07Case struct {
 	Redeliver int         `json:"redeliver,omitempty"`
 	More      [][]byte    `json:"more,omitempty"`    // further messages accepted before delivery starts (dequeued in one batch)
 	Observe   []string    `json:"observe,omitempty"` // operator read calls issued between acceptance and delivery
+	// Auth: the ingress route is protected by forward auth (the service answers 200); with
+	// "forward-copy" the service's X-User / X-Org answer headers are copied onto the message
+	Auth string `json:"auth,omitempty"`
 }
 
 func c07Text(c C07Case) string {
@@ -47,10 +50,19 @@ func c07Text(c C07Case) string {
 	b.WriteString("pull_api {\n  listen localhost:0\n  auth token raw:pulltoken\n}\n")
 	b.WriteString("admin_api { listen 0.0.0.0:0 }\n")
 	fmt.Fprintf(&b, "defaults {\n  max_body %db\n  egress {\n    https_only off\n    dns_rebind_protection off\n  }\n  deliver {\n    retry exponential max 8 base 1ms cap 2ms jitter 0\n    timeout 2s\n  }\n}\n", c.MaxBody)
+	auth := ""
+	if strings.HasPrefix(c.Auth, "forward") {
+		live, _ := fwdServer()
+		auth = fmt.Sprintf("  auth forward %s {\n    timeout 5s\n", q(live+"/b/200"))
+		if c.Auth == "forward-copy" {
+			auth += "    copy_headers \"X-User\"\n    copy_headers \"X-Org\"\n"
+		}
+		auth += "  }\n"
+	}
 	if c.Mode == "push" {
-		b.WriteString("/in {\n  deliver \"http://sink.example.org/hook\" {\n  }\n}\n")
+		b.WriteString("/in {\n" + auth + "  deliver \"http://sink.example.org/hook\" {\n  }\n}\n")
 	} else {
-		b.WriteString("/in {\n  pull { path /pull/in }\n}\n")
+		b.WriteString("/in {\n" + auth + "  pull { path /pull/in }\n}\n")
 	}
 	return b.String()
 }
@@ -171,6 +183,9 @@ func genC07Case() *rapid.Generator[C07Case] {
 		for i := 0; i < n; i++ {
 			c.Headers = append(c.Headers, [2]string{rapid.SampledFrom(c07HdrNames).Draw(t, "hn"), rapid.SampledFrom(c07HdrVals).Draw(t, "hv")})
 		}
+		if c.Via == "ingress" {
+			c.Auth = rapid.SampledFrom([]string{"", "", "", "forward", "forward-copy"}).Draw(t, "auth")
+		}
 		c.Redeliver = rapid.SampledFrom([]int{0, 0, 1, 2, 3}).Draw(t, "redeliver")
 		nm := rapid.SampledFrom([]int{0, 0, 1, 2}).Draw(t, "nmore")
 		for i := 0; i < nm; i++ {
@@ -211,6 +226,13 @@ func runC07(c C07Case, _ bool) *fOutcome {
 		target = "http://sink.example.org/hook"
 	}
 	wantHeaders := expectedStored(c.Headers)
+	if c.Auth != "" {
+		out.Labels["auth-"+c.Auth] = true
+	}
+	if c.Auth == "forward-copy" {
+		// documented: the listed answer headers of the auth service are set on the message
+		wantHeaders["X-User"], wantHeaders["X-Org"] = "u-200", "o1,o2"
+	}
 	tooLarge := len(c.Body) > c.MaxBody
 	// ---- acceptance
 	var accepted bool
@@ -227,6 +249,10 @@ func runC07(c C07Case, _ bool) *fOutcome {
 			}
 		case rec.Code == 202:
 			accepted = true
+		case rec.Code == 503 && c.Auth != "":
+			out.Skipped = "the forward-auth callout did not answer in time (machine load)"
+			out.Labels["inconclusive-environment"] = true
+			return out
 		case rec.Code == 413:
 			// header bytes above the default max_headers (64 KiB): not reachable with this pool
 			out.Failure = ffail("C07,C12", "unexpected-413", 0, "body of %d bytes (max_body %d) answered 413", len(c.Body), c.MaxBody)
